@@ -49,3 +49,160 @@ def ser_width(arm):
     ws = [WIDTH_OF[x["n"]] for x in walk(arm) if x["k"] == "call" and x.get("n") in WIDTH_OF]
     ws = [w for w in ws if w > 1] or ws
     return ws[0] if ws else None
+
+
+# ---------------------------------------------------------------------------------------------------------------------
+# term-based extraction (G-SYM): the classes are read off the decided conditions of each path, so if-chains, sequences of
+# early returns, switches and hoisted widths all give the same ladder
+from . import symx  # noqa: E402
+from .facts import AnalysisBroken  # noqa: E402
+
+
+def interval(conds, var, top=None):
+    """[lo, hi] of the values of term `var` admitted by the decided conditions (hi None = unbounded)"""
+    lo, hi = 0, top
+    for (t, v) in conds:
+        if not isinstance(t, tuple):
+            continue
+        if t[0] == "ap" and t[1] == "bool" and len(t) == 3:
+            t = t[2]
+        if t[0] == "ap" and t[1] == "<" and len(t) == 4:
+            X, Y = t[2], t[3]
+            if X == var and symx.is_const(Y):
+                K = Y[1]
+                if v:
+                    hi = K - 1 if hi is None else min(hi, K - 1)
+                else:
+                    lo = max(lo, K)
+            elif Y == var and symx.is_const(X):
+                K = X[1]
+                if v:
+                    lo = max(lo, K + 1)
+                else:
+                    hi = K if hi is None else min(hi, K)
+        elif t[0] == "eq" and len(t) == 3 and var in t[1:]:
+            other = t[2] if t[1] == var else t[1]
+            if symx.is_const(other):
+                K = other[1]
+                if v:
+                    lo, hi = max(lo, K), (K if hi is None else min(hi, K))
+                elif K == lo:
+                    lo += 1
+                elif hi is not None and K == hi:
+                    hi -= 1
+    return lo, hi
+
+
+def _explore(prog, func, **kw):
+    X = symx.Explorer(prog, inline=lambda fn, n: False, transparent=lambda n: True)
+    try:
+        return X, X.explore(func, **kw)
+    except symx.Unsupported as e:
+        raise AnalysisBroken("%s: %s" % (func.name, e))
+
+
+def writer_classes(prog, func):
+    """WriteCompactSize(os, n): [(max admitted n, marker byte, payload width)] sorted by class"""
+    if len(func.params) != 2:
+        raise AnalysisBroken("%s takes %d parameters" % (func.name, len(func.params)))
+    n = ("a", "n")
+    X, outs = _explore(prog, func, params={func.params[0]["n"]: ("a", "os"), func.params[1]["n"]: n})
+    out = []
+    for o in outs:
+        if o.status not in ("ret", "end"):
+            continue
+        lo, hi = interval(o.conds, n)
+        ws = [e for e in o.events if e.kind == "call" and e.name in WIDTH_OF]
+        marker = width = "?"
+        if len(ws) == 1 and ws[0].terms[1] == n:
+            marker, width = None, WIDTH_OF[ws[0].name]
+        elif len(ws) == 2 and ws[0].name.endswith("data8") and symx.is_const(ws[0].terms[1]) and ws[1].terms[1] == n:
+            marker, width = ws[0].terms[1][1], WIDTH_OF[ws[1].name]
+        out.append((lo, hi, marker, width))
+    out.sort(key=lambda x: x[0])
+    return _ladder(out, func)
+
+
+def _ladder(classes, func):
+    # classes must tile [0, inf)
+    nxt = 0
+    lad = []
+    for (lo, hi, marker, width) in classes:
+        if lo != nxt:
+            return [("gap/overlap at %d" % lo, marker, width)]
+        lad.append((hi, marker, width))
+        nxt = None if hi is None else hi + 1
+    return lad
+
+
+def prefix_classes(prog, func, this=("a", "this")):
+    """Value::do_prefix_compact_size: [(max admitted length, marker byte pushed first, number of length bytes)] and whether
+    every path ends by inserting the prefix at the beginning of the data"""
+    X, outs = _explore(prog, func, this=this)
+    out = []
+    inserted = True
+    for o in outs:
+        if o.status not in ("ret", "end"):
+            continue
+        # the length variable: the term compared with constants
+        cands = {}
+        for (t, v) in o.conds:
+            tt = t[2] if isinstance(t, tuple) and t[0] == "ap" and t[1] == "bool" and len(t) == 3 else t
+            if isinstance(tt, tuple) and tt[0] == "ap" and tt[1] == "<" and len(tt) == 4:
+                for x in (tt[2], tt[3]):
+                    if not symx.is_const(x):
+                        cands[x] = cands.get(x, 0) + 1
+        if not cands:
+            raise AnalysisBroken("%s: no length classes found" % func.name)
+        var = max(cands, key=lambda k: cands[k])
+        lo, hi = interval(o.conds, var)
+        markers = []
+        width = "?"
+        for e in o.events:
+            if e.kind == "mcall" and e.name == "push_back" and symx.is_const(e.terms[1]):
+                markers.append(e.terms[1][1])
+            if e.kind == "loop":
+                key = e.terms[0]
+                if isinstance(key, tuple) and key[0] == "ap" and key[1] == "while" and isinstance(key[2], tuple) and key[2][:3] == ("ap", "<", ("it", 0)) and symx.is_const(key[2][3]):
+                    pb = [b for b in e.body if b.kind == "mcall" and b.name == "push_back" and isinstance(b.terms[1], tuple) and b.terms[1][:2] == ("ap", "&") and symx.is_const(b.terms[1][3]) and b.terms[1][3][1] == 0xff]
+                    width = key[2][3][1] if pb else "loop body does not push (len & 0xff)"
+        ins = [e for e in o.events if e.kind == "mcall" and e.name == "insert" and len(e.terms) == 4 and isinstance(e.terms[1], tuple) and e.terms[1][:2] == ("ap", "m:begin")]
+        if not ins:
+            inserted = False
+        out.append((lo, hi, markers[0] if len(markers) == 1 else (None if not markers else tuple(markers)), width))
+    out.sort(key=lambda x: x[0])
+    return _ladder(out, func), inserted
+
+
+def reader_classes(prog, func):
+    """ReadCompactSize(is, range_check=false): {(lo, hi) of the marker byte: (payload width read, canonical lower bound)}"""
+    if len(func.params) != 2:
+        raise AnalysisBroken("%s takes %d parameters" % (func.name, len(func.params)))
+    X, outs = _explore(prog, func, params={func.params[0]["n"]: ("a", "is"), func.params[1]["n"]: symx.C(0)})
+    classes = {}
+    for o in outs:
+        reads = [e for e in o.events if e.kind == "call" and e.name in WIDTH_OF]
+        if not reads or not reads[0].name.endswith("data8"):
+            raise AnalysisBroken("%s does not start by reading the marker byte" % func.name)
+        marker = ("ap", reads[0].name,) + tuple(reads[0].terms)
+        lo, hi = interval(o.conds, marker, top=255)
+        width = None
+        canon = None
+        val = marker
+        if len(reads) == 2:
+            width = WIDTH_OF[reads[1].name]
+            val = ("ap", reads[1].name,) + tuple(reads[1].terms)
+        elif len(reads) > 2:
+            width = "?"
+        cl, ch = interval(o.conds, val)
+        rec = classes.setdefault((lo, hi), {"width": width, "canon": None, "ret_ok": True})
+        if rec["width"] != width:
+            rec["width"] = "?"
+        if o.status == "throw":
+            # thrown when the payload is below the canonical bound
+            if ch is not None:
+                rec["canon"] = ch + 1 if rec["canon"] is None else max(rec["canon"], ch + 1)
+        elif o.status == "ret":
+            if o.ret != val:
+                rec["ret_ok"] = False
+    return classes
